@@ -167,6 +167,30 @@ func (x *fnCtx) rederive(st *State, fr *Frame, in ssa.Instruction, v ssa.Value) 
 		r := Sym(hint, SInt)
 		x.rederivedAllocFacts(st, fr, in, r)
 		out := &Val{T: i.Type(), L: []*Term{r}}
+		if !i.Heap {
+			// a stack variable of this function (its address does not escape): callees that do
+			// not receive its address leave it alone, also on a path that started at a loop head
+			el := i.Type().Underlying().(*types.Pointer).Elem()
+			var names []string
+			if _, ok := transparentStruct(el); ok {
+				base, _ := heapKeyStruct(el, nil)
+				for _, l := range layout(el) {
+					names = append(names, base+l.Suffix)
+				}
+			} else if _, isArr := el.Underlying().(*types.Array); !isArr {
+				for _, l := range layout(el) {
+					names = append(names, cellHeapName(el)+l.Suffix)
+				}
+			}
+			for k, l := range layout(el) {
+				if k < len(names) {
+					heapSorts[names[k]] = ArrSort(SInt, l.Sort)
+				}
+			}
+			if len(names) > 0 {
+				st.stackObjs = append(st.stackObjs, stackObj{ref: r, names: names})
+			}
+		}
 		return out
 	case *ssa.MakeClosure:
 		fnv := &FnVal{Fn: i.Fn.(*ssa.Function)}
